@@ -30,6 +30,7 @@ WIRE = {
            'pkt.payload.length <= U64',
     'refuse': 'pkt.payload.reason >= 0 and pkt.payload.reason <= 255 and pkt.payload.transfer_id >= 0 and '
               'pkt.payload.transfer_id <= U64',
+    'unknown_type': 'pkt.msg_id is not None and pkt.msg_id >= 0 and pkt.msg_id <= 255',
 }
 
 # the parser (recv_raw) hands contact headers only before, and messages only after, the contact exchange
@@ -46,6 +47,7 @@ CASES = [
     {'name': 'segment', 'params': {'pkt': 'Pkt[MessageHead, TransferSegment]'}, 'requires': [PHASE_M, WIRE['segment']]},
     {'name': 'ack', 'params': {'pkt': 'Pkt[MessageHead, TransferAck]'}, 'requires': [PHASE_M, WIRE['ack']]},
     {'name': 'refuse', 'params': {'pkt': 'Pkt[MessageHead, TransferRefuse]'}, 'requires': [PHASE_M, WIRE['refuse']]},
+    {'name': 'unknown_type', 'params': {'pkt': 'Pkt[MessageHead, Raw]'}, 'requires': [PHASE_M, WIRE['unknown_type']]},
 ]
 
 FUNCS = {
@@ -69,6 +71,9 @@ FUNCS = {
             # the framing state belongs to recv_raw: message handling never touches it
             ('rx_buffer_untouched', 'self._Messenger__rx_buf == old(self._Messenger__rx_buf) and '
                                     'ghost.rx_consumed == old(ghost.rx_consumed)', ['C07']),
+            ('configuration_kept', 'self._peer_name == old(self._peer_name) and '
+                                   '(self._config.modulate_target_ack_time is None) == '
+                                   'old(self._config.modulate_target_ack_time is None)', []),
             # ---- C17: out-of-place messages ----------------------------------------------------------------
             ('pre_session_transfer_msg_rejected',
              'implies((is_layer(pkt, "TransferSegment") or is_layer(pkt, "TransferAck") or is_layer(pkt, "TransferRefuse") '
@@ -83,6 +88,9 @@ FUNCS = {
             ('unknown_refuse_rejected',
              'implies(is_layer(pkt, "TransferRefuse") and old(self._in_sess) and '
              'not contains(old(self._tx_map), pkt.payload.transfer_id), one_reject(self) and queues_kept(self))', ['C17']),
+            ('unknown_type_rejected',
+             'implies(is_layer(pkt, "Raw"), one_reject(self) and queues_kept(self) and last(ghost.trace).reason == 1)',
+             ['C17']),
             ('bad_contact_header_closes',
              'implies(is_layer(pkt, "Head") and (not (pkt.magic == contact.MAGIC_HEAD) or not (pkt.version == 4)), '
              'closed(self) and ghost.trace == old(ghost.trace))', ['C17']),
